@@ -14,6 +14,8 @@ def run(R):
     if not R.build():
         return
     R.lean(["C19"])
+    import hunted
+    hunted.run(R, "C19")
     quick = R.tier == "quick"
     rng = R.rng
     reqs, meta, opts = ties.t7_requests(rng, quick)
